@@ -100,6 +100,24 @@ def run(ctx):
                            ("MC_AB_nested.cfg", cfg_text(["a1", "f1"], ["f1", "f2"], 2, 1, 2)),
                            ("MC_AB_3flush.cfg", cfg_text(["a1"], ["f1", "f2"], 1, 2, 1))]:
             mcs.append((name, text, mc(ctx, name, text, timeout=2400)))
+    # liveness (growth): under fairness of in-call steps and releases every call returns and every flushed session is
+    # eventually destructed without any further flush
+    live_insts = [("MC_AB_live.cfg", (["a1"], ["f1", "f2"], 2, 1, 1))] if ctx.pid == "C17" else []
+    if T and live_insts:
+        live_insts.append(("MC_AB_live2.cfg", (["a1", "a2"], ["f1", "f2"], 1, 1, 1)))
+    for name, (acc, fl, ma, mf, mh) in live_insts:
+        text = cfg_text(acc, fl, ma, mf, mh, invs=()).replace("SPECIFICATION Spec", "SPECIFICATION LiveSpec").replace(
+            "CHECK_DEADLOCK FALSE", "PROPERTY EveryFlushDestructed\nPROPERTY EveryCallReturns\nCHECK_DEADLOCK FALSE")
+        open(os.path.join(ctx.wd, name), "w").write(text)
+        vlib.stage_specs(ctx.wd, [])
+        r = vlib.run_tlc("AccessBarrier.tla", name, ctx.wd, timeout=2400)
+        ctx.states += r.distinct
+        ctx.transitions += r.generated
+        ctx.mc_runs.append({"spec": "AccessBarrier.tla", "cfg": name, "kind": "liveness under fairness (LiveSpec): EveryFlushDestructed, EveryCallReturns",
+                            "distinct_states": r.distinct, "states_generated": r.generated, "wall_s": round(r.wall, 1), "result": r.violated or "no error"})
+        log("[M1] AccessBarrier/%s (liveness): %d distinct states, %.0fs: %s" % (name, r.distinct, r.wall, r.violated or "temporal properties hold"))
+        if r.kind is not None:
+            raise Infra("AccessBarrier.tla violates %s in %s: the model of the repaired barrier is wrong (the real barrier is judged by traces)" % (r.violated, name))
     scripts = []
     for name, text, r in mcs:
         if not r.ok:
